@@ -48,6 +48,11 @@ def head_buffers(tier, rng):
             if mt in (2, 3) and ai < 24:
                 tails = [bytes(rng.below(256) for _ in range(n)) for n in range(0, ai + 2)]
             for t in tails: out.append(bytes([ib]) + t)
+            # what follows a complete one-byte head must not matter: the same byte again after every such head, and every possible follower after the
+            # indefinite starts, the break and one head of each major type
+            out.append(bytes([ib, ib])); out.append(bytes([ib, ib, ib]))
+            if ib in (0x5f, 0x7f, 0x9f, 0xbf, 0xff, 0x00, 0x20, 0x40, 0x60, 0x80, 0xa0, 0xc0, 0xf4, 0xf5, 0xf6, 0xf7):
+                for v in range(256): out.append(bytes([ib, v]))
             continue
         k = ARG_W[ai]
         for v in arg_values(k, tier, rng):
